@@ -202,7 +202,7 @@ def snapshot(w, relax_links=False):
             st, m = W.mask_of(d, g.subset_state)
             if any(getattr(a, 'parent', None) is not None and not any(a.parent is x for x in dc) for a in attrs_of(g.subset_state, [])) or \
                     bound_outside(g.subset_state, dc) or \
-                    (joined_outside(d, dc) and not all(any(a is c for c in d.components) for a in attrs_of(g.subset_state, []))):
+                    (joined_outside(d, dc) and not evaluates_directly(d, g.subset_state)):
                 # the selection is defined on attributes of a dataset that has left the collection: whether a dataset still in
                 # it can evaluate it depends on what the departed dataset (not part of the session) still carries - links that
                 # were dropped when it left survive on it as stale derived components until it is re-appended
@@ -244,6 +244,18 @@ def json_able(v):
     if isinstance(v, dict):
         return all(isinstance(k, str) and json_able(x) for k, x in v.items())
     return False
+
+
+def evaluates_directly(d, st):
+    """Can d evaluate the selection itself, i.e. without going through a key join?"""
+    from glue.core.exceptions import IncompatibleAttribute
+    try:
+        st.to_mask(d)
+    except IncompatibleAttribute:
+        return False
+    except Exception:
+        pass
+    return True
 
 
 def joined_outside(d, dc):
